@@ -1,6 +1,7 @@
 """C06 output is a function of the input alone"""
 PID = "C06"
 THEOREM_FILE = "Properties/C06.v"
+EXTRA_THEOREM_FILES = ["Properties/C06reg.v"]
 NEEDS_KNUT = True
 
 RULE = ("tie-rich generated journals (few days, many same-day directives, duplicated transactions, several price paths) spread over "
@@ -77,7 +78,20 @@ def compare(c):
     return True
 
 
+def _reg_class(c):
+    parts = c.observed.split(" | ", 1)
+    o = parts[1] if len(parts) == 2 else ""
+    if o.startswith("OK "):
+        # data rows = lines that start with "| " minus the header
+        rows = o.count("\\n| ") + (1 if o.startswith("OK | ") else 0) - 1
+        return "OK-empty" if rows <= 0 else ("OK-1row" if rows == 1 else "OK")
+    return o.split(" ")[0] if o else "?"
+
+
 def nontrivial(c):
+    if c.op == "C06.reg":
+        # a table with at least two data rows, or the nil-Dest panic
+        return _reg_class(c) in ("OK", "PANIC")
     if c.op == "C06.order":
         # more than one file holds directives
         head = c.input.split(" | ")[0].split(" # ")
@@ -89,5 +103,7 @@ def distribution(cases):
     d = {}
     for c in cases:
         k = c.input.split(" ")[0]
+        if c.op == "C06.reg":
+            k = "register:" + _reg_class(c)
         d[k] = d.get(k, 0) + 1
     return d
